@@ -224,6 +224,34 @@ fn main() {
         std::process::exit(if bad > 0 { 1 } else { 0 });
     }
 
+    // open known findings of this property: replay each witness strictly; report it while it still fails
+    for k in rvh::kf::open() {
+        if !k.properties.iter().any(|p| p == &prop) {
+            continue;
+        }
+        let w = match &k.witness {
+            Some(w) => w,
+            None => continue,
+        };
+        let docs: Vec<Value> = if let Some(a) = w.as_array() { a.clone() } else { vec![w.clone()] };
+        for d in docs {
+            if d.get("property").and_then(|x| x.as_str()).map(|x| x != prop).unwrap_or(false) {
+                continue;
+            }
+            let vname = d.get("variant").and_then(|x| x.as_str()).unwrap_or("");
+            let vars = rvh::props::variants(&prop);
+            if let (Some(var), Some(case)) = (vars.iter().find(|x| x.name == vname), d.get("case").and_then(Case::from_json)) {
+                rvh::kf::set_strict(true);
+                let mut l = Local::default();
+                let verdict = (var.check)(&case, &mut l);
+                rvh::kf::set_strict(false);
+                if let Verdict::Fail(msg) = verdict {
+                    println!("KNOWN-FINDING: property={} {} [{}] witness {} :: {}", prop, k.id, k.what, case.show(), msg);
+                }
+            }
+        }
+    }
+
     // regression inputs first
     for (path, vname, case, _doc) in load_replays(&prop) {
         let vars = rvh::props::variants(&prop);
